@@ -1,10 +1,61 @@
 import Dmn.Model.Sexp
+import Dmn.Model.Concurrency
+import Dmn.Gen.SharedState
 
-/-! Driver handler for C20 — not implemented yet. -/
+/-!
+Driver handler for C20.
+
+* `(c20 table)` → the checks of `Props/C20.lean` evaluated on the regenerated table, and its
+  sizes: `((functions n) (closures n) (edges n) (evalReachable n) (lockOps n) (readOnly b)
+  (closed b) (globals b) (ffi b) (sendSync b) (evalWrites (name…)))`.
+* `(c20 run (<program>…) (<thread index>…))` → runs the interleaving semantics on abstract
+  call programs and a schedule: `((finished b) (blocked n) (results r…) (alone r…))`.
+  `<program>` = `(<act>…)` with `<act>` = `(r l)` acquire read, `(u l)` release read,
+  `(w l)` acquire write, `(v l)` release write, `(c k)` compute `s := s * 31 + k + registry`,
+  `(m k)` mutate `registry := registry + k`.
+-/
 
 namespace Dmn.Driver.C20
-open Dmn
+open Dmn Dmn.Conc Dmn.Gen.SharedState
 
-def handle (_args : List Sexp) : String := "(error not-implemented)"
+def actOf : Sexp → Option (Act Nat Nat)
+  | .list [.atom "r", l] => (Sexp.nat? l).map .acqRead
+  | .list [.atom "u", l] => (Sexp.nat? l).map .relRead
+  | .list [.atom "w", l] => (Sexp.nat? l).map .acqWrite
+  | .list [.atom "v", l] => (Sexp.nat? l).map .relWrite
+  | .list [.atom "c", k] => (Sexp.nat? k).map (fun k => .compute (fun r s => (s * 31 + k + r) % 1000000007))
+  | .list [.atom "m", k] => (Sexp.nat? k).map (fun k => .mutate (fun _ r => r + k))
+  | _ => none
+
+def progOf : Sexp → Option (List (Act Nat Nat))
+  | .list as => as.mapM actOf
+  | _ => none
+
+def countBlocked (w : World Nat Nat) : Nat :=
+  ((List.range w.threads.length).filter (fun i =>
+    match stepThread w i with
+    | .blocked _ => true
+    | _ => false)).length
+
+def b (x : Bool) : String := if x then "true" else "false"
+
+def handle (args : List Sexp) : String :=
+  match args with
+  | [.atom "table"] =>
+    let evalWrites := ops.filter (fun o => reach evalReachable o.fn && !(o.actKind locations).readOnly)
+    let names := " ".intercalate (evalWrites.map (fun o => (fnName o.fn).replace " " "_"))
+    let nReach := ((List.range fnCount).filter (reach evalReachable)).length
+    s!"((functions {fnCount}) (closures {closureRoots.length}) (edges {edges.length}) (evalReachable {nReach}) (lockOps {ops.length}) (ffiCalls {ffiCalls.length}) (locations {locations.length}) (readOnly {b (evalPhaseReadOnly evalReachable locations ops)}) (closed {b (reach evalReachable evalEntry && containsAll evalReachable closureRoots && closed evalReachable edges)}) (globals {b (noUnsynchronisedGlobals locations)}) (ffi {b (ffiPrivate evalReachable ffiCalls && defaultContextUses.all (·.1))}) (sendSync {b (!evaluatorTypes.isEmpty && evaluatorTypes.all (·.2.2))}) (evalWrites {names}))"
+  | [.atom "run", .list progs, .list sched] =>
+    match progs.mapM progOf, sched.mapM Sexp.nat? with
+    | some progs, some sched =>
+      let w0 : World Nat Nat := initWorld 5 (progs.map (fun p => (p, 1)))
+      let w := run w0 sched
+      let finished := w.threads.all (fun t => t.todo.isEmpty)
+      let results := " ".intercalate (w.threads.map (fun t => toString t.st))
+      let alones := " ".intercalate (progs.map (fun p => toString (alone 5 p 1)))
+      s!"((finished {b finished}) (blocked {countBlocked w}) (results {results}) (alone {alones}))"
+    | _, _ => "(error bad-run)"
+  | _ => "(error bad-request)"
 
 end Dmn.Driver.C20
